@@ -51,6 +51,9 @@ class FnSpec:
     methods = {}
     comps = {}
     trace = False  # does the unit call user code?
+    # vacuity guard: statements no feasible path reaches must match one of these (defensive branches the contracts prove dead);
+    # any other unreached statement makes the unit undecided
+    expected_unreached = ("raise NotImplementedError",)
 
     def name(self):
         return self.addr.split("::")[1]
@@ -159,8 +162,11 @@ def apply_contract(spec, fnode):
             for fld in spec.ret_fields:
                 s.put(fld, r, fresh("rf_" + fld.replace(":", "_"), field_sort(fld).range()))
         else:
+            # the callee may have allocated (e.g. an error object it returns): the counter moves on, the result exists
             r = fresh("ret_" + spec.name().split("/")[-1])
-            s.assume(r < s.ctr)
+            nc = fresh("ctr")
+            s.assume(nc >= s.ctr, r < nc)
+            s.ctr = nc
         rv = V("ref", r, spec.ret_hint) if r is not None else vbool(fresh("retb_" + spec.name().split("/")[-1], B))
         c = Ctx(ex, pre, s, a, ghost)
         s.assume(*[f for _, f in spec.ensures_ret(c, rv)])
@@ -197,6 +203,7 @@ class UnitReport:
         self.symex_s = 0.0
         self.solve_s = 0.0
         self.cover = set()
+        self.unreached = []
 
 
 def initial_state(ex, spec, fnode):
@@ -302,6 +309,23 @@ def verify_unit(spec, registry, fuel=2, timeout_ms=10000, mutate=None, prop=None
         import traceback
         rep.error = "unsupported: spec anchor does not resolve on the current source (%s: %s) at %s" % (
             type(e).__name__, e, traceback.format_exc().strip().splitlines()[-3].strip()[:120])
+    # vacuity guard: statements of the unit (nested closures excluded) that no feasible path reached
+    rep.unreached = []
+    if rep.error is None:
+        reached = getattr(ex, "reached", set())
+
+        def scan(stmts):
+            for n in stmts:
+                if isinstance(n, (ast.FunctionDef, ast.AsyncFunctionDef, ast.ClassDef)):
+                    continue
+                if id(n) not in reached:
+                    rep.unreached.append("line %d: %s" % (n.lineno, ast.unparse(n).split("\n")[0][:90]))
+                    continue  # (what is below an unreached statement is unreached too: report the top one only)
+                for f in ("body", "orelse", "finalbody"):
+                    scan(getattr(n, f, []) or [])
+                for h in getattr(n, "handlers", []) or []:
+                    scan(h.body)
+        scan(fnode.body)
     rep.symex_s = time.time() - t0
     rep.obligations = ex.obls
     rep.paths = ex.paths
